@@ -410,3 +410,72 @@ Definition document_runtime_texts (d : opdoc) : res (list str) := runtime_texts_
 
 (** [print_to_json_string(&document)] for a whole [OperationDocument] *)
 Definition document_text (d : opdoc) : str := print_to_json_string (document_fields (od_defs d)).
+
+(** * crates/graphql-loader/src/loader.rs: emit_js (since /repo 539df4b)
+
+    After import resolution the loader, which runs no checker, looks for a fragment spread whose fragment is
+    not defined in the resolved document and returns [Err(FragmentNotDefined { name })] (Display:
+    "Fragment 'name' is not defined") before printing; otherwise it returns [print_js]'s text. *)
+Section FindUndefined.
+  Variable is_defined : str -> bool.
+  (** [find_in_selection_set]: [find_map] in source order *)
+  Fixpoint fu_sel (x : selection) : option str :=
+    match x with
+    | SField _ _ _ _ (Some ss) => fu_set ss
+    | SField _ _ _ _ None => None
+    | SSpread _ n _ => if is_defined (iname n) then None else Some (iname n)
+    | SInline _ _ _ ss => fu_set ss
+    end
+  with fu_set (ss : selset) : option str :=
+    match ss with
+    | SelSet _ sels =>
+        (fix go (l : list selection) : option str :=
+           match l with
+           | [] => None
+           | x :: r => match fu_sel x with Some n => Some n | None => go r end
+           end) sels
+    end.
+End FindUndefined.
+
+(** [is_defined]: some fragment definition of the document has that name *)
+Definition is_defined_in (defs : list execdef) (n : str) : bool :=
+  existsb (fun d => match d with DFrag f => str_eqb (iname (fr_name f)) n | _ => false end) defs.
+
+(** [find_undefined_fragment_spread]: definitions in document order *)
+Definition find_undefined_fragment_spread (defs : list execdef) : option str :=
+  (fix go (l : list execdef) : option str :=
+     match l with
+     | [] => None
+     | d :: r =>
+         match match d with
+               | DOp o => fu_set (is_defined_in defs) (op_sel o)
+               | DFrag f => fu_set (is_defined_in defs) (fr_sel f)
+               | DImport _ => None
+               end with
+         | Some n => Some n
+         | None => go r
+         end
+     end) defs.
+
+Definition msg_fnd_pre := Eval vm_compute in s "Fragment '".
+Definition msg_fnd_post := Eval vm_compute in s "' is not defined".
+Definition msg_fragment_not_defined (n : str) : str := msg_fnd_pre ++ n ++ msg_fnd_post.
+
+Inductive lres (T : Type) :=
+| LOk (texts : list T)       (* emit_js returned true; the JSON chunks of the module text *)
+| LErr (msg : str)           (* emit_js returned false; the result string *)
+| LPanic (msg : str)         (* a panic inside extern "C": the process aborts *)
+| LOutOfFuel.
+Arguments LOk {T} texts. Arguments LErr {T} msg. Arguments LPanic {T} msg. Arguments LOutOfFuel {T}.
+
+(** [emit_js] on the resolved document *)
+Definition loader_emit_js (d : opdoc) : lres str :=
+  match find_undefined_fragment_spread (od_defs d) with
+  | Some n => LErr (msg_fragment_not_defined n)
+  | None =>
+      match document_runtime_texts d with
+      | Ok ts => LOk ts
+      | Panic m => LPanic m
+      | OutOfFuel => LOutOfFuel
+      end
+  end.
